@@ -39,12 +39,10 @@ pub fn no_header_decompress(in_data: &mut [u8], out_data: &mut [u8]) -> bool {
         strm.next_out = out_data.as_mut_ptr();
 
         let ret = inflate(&mut strm, Z_NO_FLUSH);
-        if ret != Z_STREAM_END {
-            return false;
-        }
 
+        // release the stream state on every path, a failed inflate included
         inflateEnd(&mut strm);
 
-        true
+        ret == Z_STREAM_END
     }
 }
